@@ -48,7 +48,7 @@ var (
 )
 
 const (
-	historyWatchdog = 180 * time.Second
+	historyWatchdog = 120 * time.Second
 	keepFrames      = 256
 	keepBytes       = 8 << 20
 )
@@ -106,7 +106,11 @@ func sameUnits(a, b [][]byte) bool {
 
 // runHistory feeds one history to a fresh decoder under monitors (a), (c), (d), (e). It stops at the
 // first firing. With heap set, (e) keeps nothing and the walker does not stop the history early.
-func runHistory(spec histSpec, t target, heap bool) (out outcome) {
+func runHistory(spec histSpec, t target, heap bool) outcome {
+	return runHistoryP(spec, t, heap, nil)
+}
+
+func runHistoryP(spec histSpec, t target, heap bool, progress *atomic.Int64) (out outcome) {
 	src, err := newSource(spec, t, corpus)
 	if err != nil {
 		run.Fatal("history %+v: %v", spec, err)
@@ -185,6 +189,9 @@ func runHistory(spec histSpec, t target, heap bool) (out outcome) {
 	for pkt := src.next(); pkt != nil; pkt = src.next() {
 		call++
 		out.calls++
+		if progress != nil {
+			progress.Store(int64(call))
+		}
 		if n := len(pkt.Payload); n > maxPayload {
 			maxPayload = n
 			nextWalk = call // (the sampling distance depends on the largest packet)
@@ -294,16 +301,26 @@ var heapBase int64
 // debugCalls: C08_DEBUG=n prints the first n calls of a replayed history.
 var debugCalls, _ = strconv.Atoi(os.Getenv("C08_DEBUG"))
 
-// guarded runs one history in its own goroutine under the watchdog (monitor (b)).
+// guarded runs one history in its own goroutine under the watchdog (monitor (b)). The watchdog is
+// progress based: it fires when no Decode call has returned for historyWatchdog (a history that is
+// merely slow on a loaded machine keeps making progress); a firing must reproduce in a fresh attempt.
 func guarded(spec histSpec, t target, heap bool) (outcome, bool) {
 	attempt := func() (outcome, bool) {
 		ch := make(chan outcome, 1)
-		go func() { ch <- runHistory(spec, t, heap) }()
-		select {
-		case o := <-ch:
-			return o, true
-		case <-time.After(historyWatchdog):
-			return outcome{}, false
+		var progress atomic.Int64
+		go func() { ch <- runHistoryP(spec, t, heap, &progress) }()
+		last := int64(-1)
+		for {
+			select {
+			case o := <-ch:
+				return o, true
+			case <-time.After(historyWatchdog):
+				if cur := progress.Load(); cur != last {
+					last = cur
+					continue
+				}
+				return outcome{}, false
+			}
 		}
 	}
 	o, ok := attempt()
@@ -311,7 +328,7 @@ func guarded(spec histSpec, t target, heap bool) (outcome, bool) {
 		return o, true
 	}
 	if _, ok2 := attempt(); !ok2 {
-		run.Violation(t.name+"/hang", fmt.Sprintf("%s: a history does not finish within %v in two independent attempts (a Decode call does not return)", t.name, historyWatchdog),
+		run.Violation(t.name+"/hang", fmt.Sprintf("%s: no Decode call returned for %v in two independent attempts at the same history", t.name, historyWatchdog),
 			witness{histSpec: spec, Monitor: "watchdog", Heap: heap})
 		return outcome{}, false
 	}
